@@ -403,6 +403,10 @@ class Analyzer(ast.NodeVisitor):
                     self.fn.skipped.append((e.lineno, "." + m, "value-preserving in-place method explicitly permitted by the property"))
                 if m in META_INPLACE:
                     self.meta_inplace(f.value, e.lineno, m)
+                    # no stored value changes, but torch bumps the VERSION COUNTER, which the receiver shares with every view of
+                    # its storage: `g.unsqueeze(-1).unsqueeze_(-1)` invalidates the caller's g for every autograd graph that saved
+                    # it.  Hence also an in-place site of the storage program.
+                    self.inplace(recv, e.lineno, "." + m)
                 return (recv[0], recv[1], False)
             if m in DUNDER_INPLACE:
                 # x.__iadd__(y), x.__setitem__(i, v), torch.Tensor.__imul__(x, y): in-place without the trailing underscore
